@@ -15,7 +15,8 @@ PROVED = ("all array reads of the models of restrict*, in_interval, intersect, u
           "the definitions are elaborated (no hypothesis beyond equal lengths of starts/ends); restrict_writes_in_bounds; "
           "restrictCount_counts (one counter per interval, counters add up to the number of selected samples); jitbin_safe "
           "(jitcount / _jitbin_array, ANY input); valuefrom_safe + valuefrom_safe_on_restricted; pericont_safe; threshold_safe "
-          "(n >= 2, samples inside a canonical support) and threshold_oob_witness (n <= 1: open finding); eta_safe "
+          "(ANY series inside a canonical support, sizes 0 and 1 included since fix 6abb03b / efb22ea; threshold_empty / "
+          "threshold_one_sample regression witnesses); eta_safe "
           "(_jitperievent_trigger_average: every read in bounds, scan position assigned only from a computed i_start, ANY input)")
 NOT_PROVED = ("the float arithmetic of the event-trigger average (model in exact rationals, compared within 1e-9); count columns beyond one and "
               "feature values of more than one dimension are handled by the kernel uniformly and are not in the model")
